@@ -13,7 +13,8 @@
   space (`type T  {`, `scalar S `, an otherwise implied `schema  {…}` block).  Custom directive DEFINITIONS were already
   part of `print_schema_text_parses`; with this theorem their applications are too.
   COMPOSED: `text_roundtrip_custom` — the parsed document, its applied custom directives erased (`eraseCustom`), is the
-  document of the directive-free printer and builds to the schema (`print_build_roundtrip`).
+  document of the directive-free printer (with the `schema` block also when only a directive node forces it) and builds to
+  the schema (`print_build_roundtrip_block`); hypotheses `printTextWFA` and `printBuildWF s` only.
   NOT PROVED (exercised by the fixpoint oracle on the real code and by C11's builder correspondence): that `build` itself
   ignores applications of non-specified directives, `build doc = build (doc.map eraseCustom)` — the builder model reads
   `dirs` only through `deprecationReason`, the lift through all of `build` is open.
@@ -60,18 +61,22 @@ def TextRoundtripCustom (c : SdlPrintTA.OptsA) (s : SchemaD) (apps : Apps) : Pro
   ∃ (d : Document) (doc : Doc), parseSdlTextT (SdlPrintTA.printSchemaTA c s apps) = some d ∧ docToAst doc = some d ∧
     doc = SdlPrintTA.printedDocA s c apps ∧ build (doc.map SdlPrintTA.eraseCustom) = .ok (printOrder s)
 
-/-- `text_roundtrip_custom` — hypotheses on `s`, `apps` only: the lexical predicate, the structural predicate of
-    `print_build_roundtrip`, and no `schema` block written ONLY because of a schema-level directive node (`hblk`; then the
-    erased document has an explicit block naming the implied roots, which `print_build_roundtrip` does not cover) -/
+/-- the erased document is the directive-free document with the block forced by a schema-level directive node -/
+theorem erased_eq_schemaToDocB (s : SchemaD) (c : SdlPrintTA.OptsA) (apps : Apps) :
+    (SdlPrintTA.schemaToDocA s c apps).map SdlPrintTA.eraseCustom = schemaToDocB s (!(SdlPrintTA.nodesAt c apps "").isEmpty) := by
+  rw [erase_schemaToDocA]; rfl
+
+/-- `text_roundtrip_custom` — hypotheses on `s`, `apps` only: the lexical predicate and the structural predicate of
+    `print_build_roundtrip`.  A `schema` block written ONLY because of a schema-level directive node names the implied
+    roots explicitly and builds the same schema (`print_build_roundtrip_block`). -/
 theorem text_roundtrip_custom (c : SdlPrintTA.OptsA) (s : SchemaD) (apps : Apps) (hwf : SdlPrintTA.printTextWFA c s apps = true)
-    (hb : printBuildWF s = true) (hblk : SdlPrintTA.needsSchemaBlockA s c apps = needsSchemaBlock s) :
-    TextRoundtripCustom c s apps := by
+    (hb : printBuildWF s = true) : TextRoundtripCustom c s apps := by
   have hd := docToAst_schemaToDocA (printOrder s) c apps
-  have he : (SdlPrintTA.printedDocA s c apps).map SdlPrintTA.eraseCustom = schemaToDoc (printOrder s) :=
-    erase_schemaToDocA_eq (printOrder s) c apps (by rw [needsSchemaBlockA_printOrder, needsSchemaBlock_printOrder]; exact hblk)
   refine ⟨_, SdlPrintTA.printedDocA s c apps, ?_, hd, rfl, ?_⟩
   · rw [print_schema_text_parses_custom c s apps hwf]; exact hd
-  · rw [he]; exact print_build_roundtrip _ (printBuildWF_printOrder s hb)
+  · have he : (SdlPrintTA.printedDocA s c apps).map SdlPrintTA.eraseCustom =
+        schemaToDocB (printOrder s) (!(SdlPrintTA.nodesAt c apps "").isEmpty) := erased_eq_schemaToDocB (printOrder s) c apps
+    rw [he]; exact print_build_roundtrip_block _ _ (printBuildWF_printOrder s hb)
 
 /-- `keepP_never_specified` — `@deprecated`, `@skip`, `@include` are never printed as custom directives (fix H1 state) -/
 theorem keepP_never_specified (wl : Option (List String)) (d : DirApp) (h : specifiedDirectives.contains d.name = true) :
@@ -96,19 +101,19 @@ def shopApps : Apps :=
    ("@tag.name", [{ name := "other" }])]
 
 example : SdlPrintTA.printTextWFA {} plainShop shopApps = true := by decide
-example : TextRoundtripCustom {} plainShop shopApps := text_roundtrip_custom {} plainShop shopApps (by decide) (by decide) (by decide)
+example : TextRoundtripCustom {} plainShop shopApps := text_roundtrip_custom {} plainShop shopApps (by decide) (by decide)
 /-- a whitelist: `@other` only — `Item.name` and `Color`, `Thing` print the lone space of the quirk -/
 example : TextRoundtripCustom { whitelist := some ["other"] } plainShop shopApps :=
-  text_roundtrip_custom _ plainShop shopApps (by decide) (by decide) (by decide)
+  text_roundtrip_custom _ plainShop shopApps (by decide) (by decide)
 /-- tab indentation, a whitelist that keeps nothing -/
 example : TextRoundtripCustom { base := { indent := [9] }, whitelist := some ["nope"] } plainShop shopApps :=
-  text_roundtrip_custom _ plainShop shopApps (by decide) (by decide) (by decide)
-/-- `shop` (not in printing order, descriptions, defaults) with applications; its roots are implied, the schema-level
-    node forces the block: the parse statement holds, `hblk` of the composition does not -/
-example : parseSdlTextT (SdlPrintTA.printSchemaTA {} shop [("", [{ name := "tag" }]), ("Query", [{ name := "tag" }])]) =
-    docToAst (SdlPrintTA.printedDocA shop {} [("", [{ name := "tag" }]), ("Query", [{ name := "tag" }])]) :=
-  print_schema_text_parses_custom {} shop _ (by decide)
+  text_roundtrip_custom _ plainShop shopApps (by decide) (by decide)
+/-- `shop` (not in printing order, descriptions, defaults) with applications; its roots are implied and the schema-level
+    node forces the block: the round trip holds through `print_build_roundtrip_block` -/
+example : TextRoundtripCustom {} shop [("", [{ name := "tag" }]), ("Query", [{ name := "tag" }])] :=
+  text_roundtrip_custom {} shop _ (by decide) shop_wf
 example : SdlPrintTA.needsSchemaBlockA shop {} [("", [{ name := "tag" }])] ≠ needsSchemaBlock shop := by decide
+example : build (schemaToDocB shop true) = .ok shop := print_build_roundtrip_block shop true shop_wf
 
 /-- `printSchemaTA_conservative` — with a falsy `include_custom_schema_directives` the model with directives prints exactly
     what the directive-free model `printSchemaT` prints: `print_schema_text_parses` is the `custom = false` instance -/
